@@ -40,7 +40,7 @@ REQUIRED_PROBES = {"quick": ["leading_zero_d", "leading_zero_coord"],
 
 def budget(tier):
     if tier == "quick":
-        return dict(runs=9000, wall=75, chunk=100)
+        return dict(runs=13000, wall=75, chunk=100)
     return dict(runs=300000, wall=840, chunk=500)
 
 
